@@ -17,7 +17,7 @@ import (
 )
 
 type replayRec struct {
-	Kind       string    `json:"kind"` // request | response | router | flow
+	Kind       string    `json:"kind"` // request | response | router | flow | twins
 	NUp        int       `json:"nUp"`
 	Program    *Program  `json:"program"`
 	Interleave bool      `json:"interleave"`
@@ -25,6 +25,7 @@ type replayRec struct {
 	FromObject string    `json:"from_object"`
 	Wide       bool      `json:"wide"`
 	Case       *flowCase `json:"case"`
+	Twins      *twinCase `json:"twins"`
 }
 
 func interleavedBlock(p *Program) string {
@@ -182,6 +183,9 @@ func runReplay(r *vlib.Run, path string) {
 	case "flow":
 		replayFlow(r, rec.Case)
 		leg2Assumes(r)
+	case "twins":
+		replayTwins(r, rec.Twins)
+		leg3Assumes(r)
 	default:
 		fmt.Fprintln(os.Stderr, "replay: unknown kind", rec.Kind)
 		os.Exit(2)
